@@ -45,6 +45,16 @@ impl<'a> G<'a> {
     pub fn mxc(&mut self) -> String {
         ["mxc://s.example/abcDEF", "mxc://t.example:8448/x-y_z"][self.n(2)].to_owned()
     }
+    /// an array field: usually as given, sometimes a shorter prefix down to the empty array
+    pub fn arr(&mut self, full: Value) -> Value {
+        let mut a = match full {
+            Value::Array(a) => a,
+            other => return other,
+        };
+        let drop = self.n(2 * (a.len() + 1));
+        a.truncate(a.len().saturating_sub(drop.saturating_sub(a.len())));
+        Value::Array(a)
+    }
     /// unknown extra fields
     pub fn extra(&mut self, o: &mut Map<String, Value>) {
         if self.b() {
@@ -114,7 +124,7 @@ fn relations(g: &mut G, o: &mut Map<String, Value>) {
     if g.b() {
         let mut m = Map::new();
         if g.b() {
-            m.insert("user_ids".into(), json!([g.user()]));
+            { let u = json!([g.user()]); m.insert("user_ids".into(), g.arr(u)); }
         }
         if g.b() {
             m.insert("room".into(), json!(g.b()));
@@ -166,7 +176,7 @@ pub fn room_message(g: &mut G) -> Value {
         "m.key.verification.request" => {
             o.insert("from_device".into(), json!("DEV"));
             o.insert("to".into(), json!(g.user()));
-            o.insert("methods".into(), json!(["m.sas.v1", "org.example.method"]));
+            o.insert("methods".into(), g.arr(json!(["m.sas.v1", "org.example.method"])));
         }
         "m.server_notice" => {
             o.insert("server_notice_type".into(), json!("m.server_notice.usage_limit_reached"));
@@ -269,7 +279,7 @@ pub fn schemas() -> Vec<Schema> {
         schema!("m.room.canonical_alias", State, |g| {
             let mut o = Map::new();
             if g.b() { o.insert("alias".into(), json!("#main:s.example")); }
-            if g.b() { o.insert("alt_aliases".into(), json!(["#alt:s.example", "#other:t.example"])); }
+            if g.b() { o.insert("alt_aliases".into(), g.arr(json!(["#alt:s.example", "#other:t.example"]))); }
             g.extra(&mut o);
             Value::Object(o)
         }),
@@ -282,12 +292,12 @@ pub fn schemas() -> Vec<Schema> {
             g.extra(&mut o);
             Value::Object(o)
         }),
-        schema!("m.room.pinned_events", State, |g| { let mut o = obj(json!({"pinned": [g.event_id(), g.event_id()]})); g.extra(&mut o); Value::Object(o) }),
+        schema!("m.room.pinned_events", State, |g| { let mut o = obj(json!({"pinned": [g.event_id(), g.event_id()]})); let p = g.arr(o["pinned"].take()); o.insert("pinned".into(), p); g.extra(&mut o); Value::Object(o) }),
         schema!("m.room.server_acl", State, |g| {
             let mut o = Map::new();
             if g.b() { o.insert("allow_ip_literals".into(), json!(g.b())); }
-            if g.b() { o.insert("allow".into(), json!(["*"])); }
-            if g.b() { o.insert("deny".into(), json!(["*.evil.example", "evil.example"])); }
+            if g.b() { o.insert("allow".into(), g.arr(json!(["*"]))); }
+            if g.b() { o.insert("deny".into(), g.arr(json!(["*.evil.example", "evil.example"]))); }
             g.extra(&mut o);
             Value::Object(o)
         }),
@@ -298,16 +308,16 @@ pub fn schemas() -> Vec<Schema> {
             Value::Object(o)
         }),
         schema!("m.room.tombstone", State, |g| { let mut o = obj(json!({"body": g.s(), "replacement_room": g.room_id()})); g.extra(&mut o); Value::Object(o) }),
-        schema!("m.room.aliases", State, |g| { let mut o = obj(json!({"aliases": ["#a:s.example"]})); g.extra(&mut o); Value::Object(o) }),
+        schema!("m.room.aliases", State, |g| { let mut o = obj(json!({"aliases": g.arr(json!(["#a:s.example"]))})); g.extra(&mut o); Value::Object(o) }),
         schema!("m.space.child", State, |g| {
-            let mut o = obj(json!({"via": ["s.example", "t.example:8448"]}));
+            let mut o = obj(json!({"via": g.arr(json!(["s.example", "t.example:8448"]))}));
             if g.b() { o.insert("order".into(), json!("abc")); }
             if g.b() { o.insert("suggested".into(), json!(g.b())); }
             g.extra(&mut o);
             Value::Object(o)
         }),
         schema!("m.space.parent", State, |g| {
-            let mut o = obj(json!({"via": ["s.example"]}));
+            let mut o = obj(json!({"via": g.arr(json!(["s.example"]))}));
             if g.b() { o.insert("canonical".into(), json!(g.b())); }
             g.extra(&mut o);
             Value::Object(o)
@@ -342,7 +352,7 @@ pub fn schemas() -> Vec<Schema> {
             Value::Object(o)
         }),
         schema!("m.call.answer", MessageLike, |g| { let mut o = obj(json!({"call_id": "c1", "answer": {"type": "answer", "sdp": "v=0"}, "version": 0})); g.extra(&mut o); Value::Object(o) }),
-        schema!("m.call.candidates", MessageLike, |g| { let mut o = obj(json!({"call_id": "c1", "candidates": [{"candidate": "candidate:1", "sdpMid": "0", "sdpMLineIndex": 0}], "version": "1", "party_id": "p"})); g.extra(&mut o); Value::Object(o) }),
+        schema!("m.call.candidates", MessageLike, |g| { let mut o = obj(json!({"call_id": "c1", "candidates": g.arr(json!([{"candidate": "candidate:1", "sdpMid": "0", "sdpMLineIndex": 0}])), "version": "1", "party_id": "p"})); g.extra(&mut o); Value::Object(o) }),
         schema!("m.call.hangup", MessageLike, |g| {
             let mut o = obj(json!({"call_id": "c1", "version": if g.b() { json!(0) } else { json!("1") }}));
             if g.b() { o.insert("reason".into(), json!((["ice_failed", "invite_timeout", "user_hangup", "org.example.r"][g.n(4)]))); }
@@ -358,7 +368,7 @@ pub fn schemas() -> Vec<Schema> {
         schema!("m.key.verification.cancel", MessageLike, |g| { let mut o = obj(json!({"code": (["m.user", "m.timeout", "org.example.code"][g.n(3)]), "reason": g.s(), "m.relates_to": {"rel_type": "m.reference", "event_id": g.event_id()}})); g.extra(&mut o); Value::Object(o) }),
         schema!("m.key.verification.done", MessageLike, |g| { let mut o = obj(json!({"m.relates_to": {"rel_type": "m.reference", "event_id": g.event_id()}})); g.extra(&mut o); Value::Object(o) }),
         // ---- ephemeral ----------------------------------------------------------------------
-        schema!("m.typing", Ephemeral, |g| { let mut o = obj(json!({"user_ids": [g.user(), g.user()]})); g.extra(&mut o); Value::Object(o) }),
+        schema!("m.typing", Ephemeral, |g| { let mut o = obj(json!({"user_ids": [g.user(), g.user()]})); let u = g.arr(o["user_ids"].take()); o.insert("user_ids".into(), u); g.extra(&mut o); Value::Object(o) }),
         schema!("m.receipt", Ephemeral, |g| {
             let mut o = Map::new();
             let mut r = Map::new();
@@ -402,7 +412,7 @@ pub fn schemas() -> Vec<Schema> {
             g.extra(&mut o);
             Value::Object(o)
         }),
-        schema!("m.forwarded_room_key", ToDevice, |g| { let mut o = obj(json!({"algorithm": "m.megolm.v1.aes-sha2", "room_id": g.room_id(), "sender_key": "RF3s+E7RkTQTGF2d8Deol0FkQvgII2aJDf3/Jp5mxVU", "session_id": "X3lUlvLELLYxeTx4yOVu6UDpasGEVO0Jbu+QFnm0cKQ", "session_key": "AgAAAADxKHa9uFxcXzwYoNueL5Xqi69IkD4sni8Llf", "sender_claimed_ed25519_key": "aj40p+aw64yPIdsxoog8jhPu9i7l7NcFRecuOQblE3Y", "forwarding_curve25519_key_chain": ["hPQNcabIABgGnx3/ACv/jmMmiQHoeFfuLB17tzWp6Hw"]})); g.extra(&mut o); Value::Object(o) }),
+        schema!("m.forwarded_room_key", ToDevice, |g| { let mut o = obj(json!({"algorithm": "m.megolm.v1.aes-sha2", "room_id": g.room_id(), "sender_key": "RF3s+E7RkTQTGF2d8Deol0FkQvgII2aJDf3/Jp5mxVU", "session_id": "X3lUlvLELLYxeTx4yOVu6UDpasGEVO0Jbu+QFnm0cKQ", "session_key": "AgAAAADxKHa9uFxcXzwYoNueL5Xqi69IkD4sni8Llf", "sender_claimed_ed25519_key": "aj40p+aw64yPIdsxoog8jhPu9i7l7NcFRecuOQblE3Y", "forwarding_curve25519_key_chain": g.arr(json!(["hPQNcabIABgGnx3/ACv/jmMmiQHoeFfuLB17tzWp6Hw", "RF3s+E7RkTQTGF2d8Deol0FkQvgII2aJDf3/Jp5mxVU"]))})); g.extra(&mut o); Value::Object(o) }),
         schema!("m.secret.request", ToDevice, |g| {
             let cancel = g.b();
             let mut o = obj(json!({"action": if cancel { "request_cancellation" } else { "request" }, "requesting_device_id": "DEV", "request_id": "r"}));
@@ -411,7 +421,7 @@ pub fn schemas() -> Vec<Schema> {
             Value::Object(o)
         }),
         schema!("m.secret.send", ToDevice, |g| { let mut o = obj(json!({"request_id": "r", "secret": g.s()})); g.extra(&mut o); Value::Object(o) }),
-        schema!("m.key.verification.request", ToDevice, |g| { let mut o = obj(json!({"from_device": "DEV", "transaction_id": "t1", "methods": ["m.sas.v1"], "timestamp": 1559598944869u64})); g.extra(&mut o); Value::Object(o) }),
+        schema!("m.key.verification.request", ToDevice, |g| { let mut o = obj(json!({"from_device": "DEV", "transaction_id": "t1", "methods": g.arr(json!(["m.sas.v1"])), "timestamp": 1559598944869u64})); g.extra(&mut o); Value::Object(o) }),
     ]
 }
 
